@@ -197,6 +197,7 @@ type genCtx struct {
 	used    map[string]bool
 	b       strings.Builder
 	n       int
+	bv      bool // current function is `arith bv`: variants are machine ints, not Z
 }
 
 func (g *genCtx) qualifier(other *types.Package) string {
@@ -421,6 +422,9 @@ func (g *genCtx) emitClause(c *Clause, prefix string, ps []clauseParam) {
 	ret := "bool"
 	if c.Kind == "loopdec" {
 		ret = "Z"
+		if g.bv {
+			ret = "int"
+		}
 	}
 	fmt.Fprintf(&g.b, "//line %s:%d\nfunc %s(%s) %s { return %s }\n\n", contractFileName, c.Line, c.FnSym, strings.Join(parts, ", "), ret, strings.ReplaceAll(c.Text, "\n", " "))
 }
@@ -453,6 +457,7 @@ func generateSpecFile(p *packages.Package, pc *PkgContracts) (string, error) {
 	}
 	for _, fc := range pc.Funcs {
 		prefix := sanitize(fc.Key)
+		g.bv = fc.BV
 		if fc.Lemma {
 			// lemma: real function whose ensures are returned
 			var rets, exprs []string
